@@ -5,7 +5,7 @@ import os
 from gen_tables import *  # noqa: F401,F403
 from gen_tables import SRC, TieBroken, coq_strs, const_strs, func, in_tuples, load, module_assign, pick
 
-MODELLED = ["shell", "env", "xargs", "find", "fd", "docker", "kubectl", "arch", "caffeinate", "script", "uv"]
+MODELLED = ["shell", "env", "xargs", "find", "fd", "docker", "kubectl", "arch", "caffeinate", "script", "uv", "tar"]
 
 
 def dict_keys(node, what):
@@ -125,6 +125,9 @@ def build():
     out.append(coq_strs("CAFF_FLAGS_WITH_ARG", const_strs(module_assign(cf, "FLAGS_WITH_ARG"), "caffeinate FLAGS_WITH_ARG"), "cli/caffeinate.py FLAGS_WITH_ARG"))
     if "all((c in 'dismu' for c in token[1:]))" not in ast.unparse(func(cf, "classify")):
         raise TieBroken("caffeinate classify: combined-flag test changed")
+    tsrc = ast.unparse(func(mods["tar"], "_extract_to_command"))
+    if "t.startswith('--to-command=')" not in tsrc or "return t[13:]" not in tsrc or "t == '--to-command' and i + 1 < len(tokens)" not in tsrc:
+        raise TieBroken("tar _extract_to_command changed")
     sp = mods["script"]
     out.append(coq_strs("SCRIPT_FLAGS_WITH_ARG", const_strs(module_assign(sp, "FLAGS_WITH_ARG"), "script FLAGS_WITH_ARG"), "cli/script.py FLAGS_WITH_ARG"))
     uv = mods["uv"]
